@@ -222,7 +222,7 @@ impl Node {
             build,
             dead: None,
             frames: 0,
-            watchdog: Duration::from_secs(20),
+            watchdog: Duration::from_secs(8),
         })
     }
 
